@@ -482,6 +482,19 @@ func (fx *FnExec) loopHeader(b *ssa.BasicBlock, li *loopInfo, edges []inEdge) er
 	}
 	if li.modAll {
 		fx.havocAll(&fx.cur)
+		// private ghosts survive `modifies *`; those the loop body names explicitly do change
+		for _, n := range sortedKeys(li.mods) {
+			if fx.isImmutable(n) {
+				fx.havocVar(&fx.cur, n)
+			}
+			if strings.HasPrefix(n, "ghost.") {
+				for _, g := range fx.e.cs.Ghosts {
+					if g.Private && "ghost."+g.Name == n {
+						fx.havocVar(&fx.cur, n)
+					}
+				}
+			}
+		}
 	} else {
 		var ns []string
 		for n := range li.mods {
@@ -494,6 +507,12 @@ func (fx *FnExec) loopHeader(b *ssa.BasicBlock, li *loopInfo, edges []inEdge) er
 		}
 		if li.mods["$alloc"] {
 			fx.assume(sLe(oldAlloc, fx.heapVar(&fx.cur, "$alloc", "Int")))
+		}
+	}
+	for _, g := range fx.e.cs.Ghosts {
+		if g.Volatile {
+			fx.e.heapSort["ghost."+g.Name] = g.Sort
+			fx.havocVar(&fx.cur, "ghost."+g.Name)
 		}
 	}
 	if fx.errflow {
@@ -542,7 +561,7 @@ func (fx *FnExec) loopHeader(b *ssa.BasicBlock, li *loopInfo, edges []inEdge) er
 		}
 		if !all {
 			for _, n := range sortedKeys(li.mods) {
-				if n == "$alloc" || n == "$fail" || strings.HasPrefix(n, "L.") {
+				if n == "$alloc" || n == "$fail" || strings.HasPrefix(n, "L.") || fx.isVolatileGhost(n) {
 					continue
 				}
 				if f := fx.frameFact(n, &fx.cur, byName); f != "" {
@@ -639,7 +658,7 @@ func (fx *FnExec) backEdge(from, header *ssa.BasicBlock, succIdx int) error {
 		}
 		if !all {
 			for _, n := range sortedKeys(li.mods) {
-				if n == "$alloc" || n == "$fail" || strings.HasPrefix(n, "L.") {
+				if n == "$alloc" || n == "$fail" || strings.HasPrefix(n, "L.") || fx.isVolatileGhost(n) {
 					continue
 				}
 				if f := fx.frameFact(n, &fx.cur, byName); f != "" && f != tTrue {
